@@ -19,14 +19,14 @@ TReset == /\ l <= Len(TraceLog) /\ E.ev = "Reset" /\ l' = l + 1 /\ hasSt' = E.ha
           /\ E.ttl = TTL /\ E.window = Window /\ E.limit = Limit
           /\ enabled' = E.enabled /\ now' = 0 /\ ticks' = [d \in DOMAIN TickBudget |-> 0]
           /\ sessions' = [t \in TokenSet |-> -1] /\ ntok' = 0 /\ hits' = [a \in Addrs |-> <<>>]
-          /\ issuedAt' = [t \in TokenSet |-> -1] /\ loggedOut' = {} /\ admitted' = [a \in Addrs |-> <<>>]
+          /\ issuedAt' = [t \in TokenSet |-> -1] /\ loggedOut' = {} /\ loggedOutJars' = {} /\ admitted' = [a \in Addrs |-> <<>>]
           /\ last' = [op |-> "init"] /\ hist' = <<>>
 TLogin == /\ Cur("Login") /\ Login(E.addr, E.good, 1) /\ now = E.now
           /\ last'.adm = (IF E.adm THEN 1 ELSE 0) /\ last'.token = E.token
           /\ E.status = (IF ~enabled THEN 503 ELSE IF ~E.adm THEN 429 ELSE IF E.good THEN 200 ELSE 401)
           /\ StMatch(E.st)
-TLogout == Cur("Logout") /\ Logout(E.cookie) /\ now = E.now /\ E.status = 200 /\ StMatch(E.st)
-TRequest == /\ Cur("Request") /\ Request(E.cookie) /\ now = E.now
+TLogout == Cur("Logout") /\ Logout(E.cookies) /\ now = E.now /\ E.status = 200 /\ StMatch(E.st)
+TRequest == /\ Cur("Request") /\ Request(E.cookies) /\ now = E.now
             /\ last'.served = E.served /\ last'.served = E.servedAll /\ StMatch(E.st)
 TTick == Cur("Tick") /\ Tick(E.d) /\ now' = E.now /\ StMatch(E.st)
 Consumed == TLCSet(7, IF TLCGet(7) < l THEN l ELSE TLCGet(7))
